@@ -15,7 +15,7 @@ RULE = ('every grammar sentence (clause or directive) with <= N tokens over one 
         'completely: numeral spellings (0 00 01 007 10 123 20 digits) x 5 term positions; 16 variable names that are '
         'Python constants / engine names / loop-variable look-alikes x 4 clause shapes; 24 predicate names (Python '
         'keywords, suffix look-alikes, quoted names with spaces, operators, digits, non-ASCII, empty) as clause head; '
-        'bodies that cannot succeed; 26 words of the target language (yield, return, pass, doBreak, ...) as atoms, functor names and goal names in succeeding and never-succeeding clauses; conjunction length 1..30, head arity 0..40, term nesting 1..120, list length '
+        'bodies that cannot succeed; 26 words of the target language (yield, return, pass, doBreak, ...) as atoms, functor names and goal names in succeeding and never-succeeding clauses; conjunction length 1..30, a grid of mixed sizes (0..20 goals x if-then-else nested 0..12 deep x 0/4/9 structured head arguments; 1..25 negated goals; 1..9 if-then-else goals in sequence), head arity 0..40, term nesting 1..120, list length '
         '0..300, disjunction / if-then-else / negation nesting 1..12. If the compiler returns text: it must compile as '
         'Python, its module body must be function definitions only, loading it must add exactly the keys name_arity '
         'of the clause heads (RefGrammar), each a generator function, each callable through query without a '
@@ -70,6 +70,24 @@ def families():
         args = ','.join('A%d' % i for i in range(n))
         out.append(('head-arity', ('p(%s).' % args) if n else 'p.'))
         out.append(('head-arity', ('p(%s) :- q(%s).' % (','.join('f(A%d)' % i for i in range(n)), args)) if n else 'p :- q.'))
+    # sizes mixed: block nesting comes from goals, structured head arguments, negations and
+    # if-then-else alike; every combination on a grid around Python's limit of 20 nested blocks
+    for n in range(1, 26):
+        out.append(('mixed-size', 'p(X) :- %s.' % ', '.join('\\+ b%d(X)' % i for i in range(n))))
+    for n in range(1, 10):
+        # (a sequence of n if-then-else goals compiles to 2**n copies of what follows - the code
+        # generator distributes the continuation over both branches; no property speaks about
+        # compile time, so the family stops where this is still fast)
+        out.append(('mixed-size', 'p(X) :- %s.' % ', '.join('( c%d(X) -> t%d(X) ; e%d(X) )' % (i, i, i) for i in range(n))))
+    for g in range(0, 21, 2):
+        for d in range(0, 13):
+            for h in (0, 4, 9):
+                goals = ['g%d(X)' % i for i in range(g)]
+                ite = 'a(X)'
+                for i in range(d):
+                    ite = '( c%d(X) -> %s ; e%d(X) )' % (i, ite, i)
+                head = 'p(X%s)' % ''.join(', f(H%d)' % i for i in range(h))
+                out.append(('mixed-size', '%s :- %s.' % (head, ', '.join(goals + [ite]))))
     for n in list(range(1, 30)) + [40, 60, 80, 90, 95, 100, 105, 110, 120]:
         out.append(('term-nesting', 'p(%s).' % ('f(' * n + 'a' + ')' * n)))
         out.append(('term-nesting', 'p(X) :- q(%s).' % ('[' * n + 'X' + ']' * n)))
